@@ -57,7 +57,7 @@ func (g *c12gen) intn(lo, hi int) int { return rapid.IntRange(lo, hi).Draw(g.t, 
 func (g *c12gen) flip() bool          { return rapid.Bool().Draw(g.t, "b") }
 
 func (g *c12gen) payloadVar() *m.E {
-	return m.EName(rapid.SampledFrom([]string{"p0", "p1", "p2", "sh", "sj", "sa", "st", "sn"}).Draw(g.t, "pv"))
+	return m.EName(rapid.SampledFrom([]string{"p0", "p1", "p2", "sh", "sj", "sa", "st", "sn", "bs", "pb", "ob", "on"}).Draw(g.t, "pv"))
 }
 
 func (g *c12gen) text() *m.N {
@@ -206,6 +206,10 @@ func c12Ctx(t *rapid.T) map[string]sb.V {
 		"sj": {K: "safe", TS: []string{"js"}, E: []sb.V{str("<RAW2'>")}},
 		"sa": {K: "safe", TS: []string{"html", "js", "css"}, E: []sb.V{str("<RAW3\">")}},
 		"st": {K: "stringer", S: pl()},
+		// values that are Boolean and Stringer at once, Boolean or Number only
+		"bs": {K: "boolstringer", S: pl(), B: rapid.Bool().Draw(t, "bsvalid")},
+		"pb": {K: "ptr", E: []sb.V{{K: "boolstringer", S: pl(), B: true}}},
+		"ob": {K: "boolean", B: true}, "on": {K: "number", N: 2.5},
 		"sn": {K: "safe", TS: []string{"css"}, E: []sb.V{{K: "safe", TS: []string{"html"}, E: []sb.V{str("<RAW4;>")}}}},
 	}
 }
